@@ -297,3 +297,114 @@ func ReplayCLI(r *report.Run, h []cliOp, format string) {
 }
 
 var _ = filepath.Join
+
+// ---------- `migrate import`: the imported directory must validate ----------
+
+type ImportCase struct {
+	Format   string   `json:"format"`
+	Versions []string `json:"versions"`
+	Extra    string   `json:"extra,omitempty"` // flyway: repeatable | baseline | undo
+}
+
+func importFiles(c ImportCase) map[string]string {
+	out := map[string]string{}
+	for i, v := range c.Versions {
+		up := fmt.Sprintf("CREATE TABLE t%d (id integer);\n", i+1)
+		down := fmt.Sprintf("DROP TABLE t%d;\n", i+1)
+		name := fmt.Sprintf("step%d", i+1)
+		switch c.Format {
+		case "golang-migrate":
+			out[v+"_"+name+".up.sql"] = up
+			out[v+"_"+name+".down.sql"] = down
+		case "goose":
+			out[v+"_"+name+".sql"] = "-- +goose Up\n" + up + "\n-- +goose Down\n" + down
+		case "dbmate":
+			out[v+"_"+name+".sql"] = "-- migrate:up\n" + up + "\n-- migrate:down\n" + down
+		case "liquibase":
+			out[v+"_"+name+".sql"] = "--liquibase formatted sql\n\n--changeset atlas:" + v + "-1\n" + up + "--rollback: " + down
+		case "flyway":
+			out["V"+v+"__"+name+".sql"] = up
+		}
+	}
+	switch c.Extra {
+	case "repeatable":
+		out["R__views.sql"] = "CREATE VIEW v1 AS SELECT 1 AS one;\n"
+	case "baseline":
+		out["B"+c.Versions[0]+"__base.sql"] = "CREATE TABLE base (id integer);\n"
+	case "undo":
+		out["U"+c.Versions[0]+"__step1.sql"] = "DROP TABLE t1;\n"
+	}
+	return out
+}
+
+func evalImport(c ImportCase) (problems []string) {
+	bad := func(f string, a ...any) { problems = append(problems, fmt.Sprintf(f, a...)) }
+	wk, err := clih.NewWork()
+	if err != nil {
+		return []string{"harness: " + err.Error()}
+	}
+	defer wk.Close()
+	os.MkdirAll(wk.Path("src"), 0o755)
+	for n, body := range importFiles(c) {
+		os.WriteFile(wk.Path("src", n), []byte(body), 0o644)
+	}
+	res := wk.Run(nil, "migrate", "import", "--from", "file://"+wk.Path("src")+"?format="+c.Format, "--to", "file://"+wk.Path("dst"))
+	if res.Exit != 0 {
+		bad("`migrate import` failed: %s", res)
+		return
+	}
+	dst := Snap{}
+	for n, b := range wk.ReadDir("dst") {
+		dst[n] = b
+	}
+	if len(sqlNames(dst)) == 0 {
+		bad("`migrate import` exited 0 and wrote no migration file")
+		return
+	}
+	v := wk.Run(nil, "migrate", "validate", "--dir", "file://"+wk.Path("dst"))
+	var libErr error
+	if ld, err := migrate.NewLocalDir(wk.Path("dst")); err == nil {
+		libErr = migrate.Validate(ld)
+	}
+	if v.Exit != 0 || libErr != nil {
+		bad("the directory written by `migrate import` (%v) does not validate: CLI %s; library: %v", sqlNames(dst), v, libErr)
+	}
+	return
+}
+
+func importCases(tier string) []ImportCase {
+	var cs []ImportCase
+	vsets := [][]string{{"1", "2", "3"}, {"1", "2", "10"}, {"9", "10", "11"}, {"001", "002", "010"}}
+	if tier == "thorough" {
+		vsets = append(vsets, []string{"1"}, []string{"2", "10"}, []string{"1", "10", "100"}, []string{"20230101", "20230102"}, []string{"1.1", "1.2", "1.10"})
+	}
+	for _, f := range []string{"golang-migrate", "goose", "dbmate", "liquibase", "flyway"} {
+		for _, vs := range vsets {
+			if f != "flyway" && strings.Contains(vs[0], ".") {
+				continue
+			}
+			cs = append(cs, ImportCase{Format: f, Versions: vs})
+			if f == "flyway" {
+				for _, x := range []string{"repeatable", "baseline", "undo"} {
+					cs = append(cs, ImportCase{Format: f, Versions: vs, Extra: x})
+				}
+			}
+		}
+	}
+	return cs
+}
+
+// RunImport drives `migrate import` over source directories of the five third-party formats.
+func RunImport(r *report.Run) int {
+	defer clih.Cleanup()
+	cs := importCases(r.Tier)
+	res := make([][]string, len(cs))
+	enum.Parallel(len(cs), func(i, _ int) { res[i] = evalImport(cs[i]) })
+	for i, c := range cs {
+		r.Case(fmt.Sprintf("import|%+v", c), true)
+		if len(res[i]) > 0 {
+			r.Violate("", fmt.Sprintf("import %+v: %s", c, strings.Join(res[i], " | ")), map[string]any{"import_case": c})
+		}
+	}
+	return len(cs)
+}
